@@ -21,6 +21,13 @@ pub fn def() -> PropDef {
 }
 
 fn rebuild_all(acc: &mut Acc, input: &[u8], h: &v2::Header) {
+    // a proxy thread may have had a batch refused earlier (an oversized value): that must not affect later rebuilds
+    static BIG: std::sync::OnceLock<Vec<u8>> = std::sync::OnceLock::new();
+    let big = BIG.get_or_init(|| vec![0x5a; 65536]);
+    let refused = v2::Builder::new(0x21, 0x11).write_payloads([&[0xd1u8, 0xd2][..], &big[..]]).is_err();
+    if !refused {
+        acc.note("advisory: a batch with a 65536-byte slice was not refused (C09's business)", 1);
+    }
     let orig = h.as_bytes();
     let vc = input[12];
     let afp = input[13];
@@ -105,5 +112,6 @@ pub fn run(run: &Run) {
     run.explore(&u2::addr_universe());
     run.explore(&u2::byte_universe(run.tier.pick(3, 4)));
     run.explore(&super::c11::EmbeddedTlv { n: run.tier.pick(7, 9) });
+    run.explore(&super::c11::EmbeddedText { n: run.tier.pick(7, 9) });
     run.explore(&super::c11::EmbeddedStructured::new(run.tier == Tier::Thorough));
 }
